@@ -5,6 +5,8 @@ package processors
 import (
 	"github.com/go-kid/ioc/component_definition"
 	"github.com/go-kid/ioc/configure"
+	"github.com/go-kid/ioc/configure/binder"
+	"github.com/go-kid/ioc/configure/loader"
 	"github.com/go-kid/ioc/util/el"
 	"github.com/go-kid/ioc/zzverif/models"
 	"github.com/go-kid/ioc/zzverif/nd"
@@ -74,6 +76,12 @@ func vLoneQuoteDefault(tag string) bool {
 	return false
 }
 
+// vFirstKeyEmpty: the first placeholder of tag has an empty key (${:...})
+func vFirstKeyEmpty(tag string) bool {
+	p := models.FindBraced('$', tag)
+	return len(p) >= 4 && p[2] == ':'
+}
+
 func vPlain(s string) bool {
 	for i := 0; i < len(s); i++ {
 		b := s[i]
@@ -125,9 +133,14 @@ func VerifC16Structured() {
 	cfg.keys = append(cfg.keys, "a")
 	cfg.vals = append(cfg.vals, va)
 	// key b: absent / empty map / empty list / present
-	bKind := nd.Choose(4)
+	bKind := nd.Choose(5)
 	var vb string
 	switch bKind {
+	case 4:
+		// configured, with the empty string as its value: that is a configured value, not an absent key
+		cfg.keys = append(cfg.keys, "b")
+		cfg.vals = append(cfg.vals, "")
+		nd.Cover("configured empty string")
 	case 1:
 		cfg.keys = append(cfg.keys, "b")
 		cfg.vals = append(cfg.vals, map[string]any{})
@@ -158,6 +171,8 @@ func VerifC16Structured() {
 	if bKind == 3 {
 		want += vb
 		nd.Cover("configured value used")
+	} else if bKind == 4 {
+		// nothing to add: the configured value is the empty string
 	} else if hasDefault {
 		want += d
 		nd.Cover("default used")
@@ -201,6 +216,10 @@ func VerifC16Total() {
 	}
 	cfg := &vCfg{mode: 1, maxLen: nd.Param("M", 1), plainOnly: true}
 	cfg.loneQuote = vLoneQuoteDefault(component_definition.NewProperty(nil, component_definition.PropertyTypeConfiguration, "value", tag).TagStr)
+	if cfg.loneQuote && vFirstKeyEmpty(tag) {
+		// an empty key is never looked up (it names nothing): the finding class is entered here
+		nd.Known("C16/lone-quote-default", true)
+	}
 	prop := component_definition.NewProperty(nil, component_definition.PropertyTypeConfiguration, "value", tag)
 	p := vQuoteProc(cfg)
 	_, err := p.PostProcessProperties([]*component_definition.Property{prop}, nil, "c")
@@ -285,4 +304,27 @@ func VerifC16Cyclic() {
 		nd.Observe("expanded", prop.TagVal)
 		nd.Assert(prop.TagVal == want || want == "" || !vPlainWord(want), "C16: every placeholder is replaced by its configured value, transitively")
 	}
+}
+
+// C16 with the real binder: a placeholder whose key is empty names nothing, so its default applies -
+// the real ViperBinder answers the WHOLE configuration for the empty path (used for root binding).
+func VerifC16EmptyKey() {
+	cfg := configure.NewConfigure()
+	cfg.SetBinder(binder.NewViperBinder("yaml"))
+	cfg.AddLoaders(loader.NewRawLoader([]byte("a: one\nb:\n  c: two\n")))
+	nd.Assert(cfg.Initialize() == nil, "loading succeeds")
+	tag := []string{"${:fallback}", "x${:d}y", "${a}-${:d}"}[nd.Choose(3)]
+	want := []string{"fallback", "xdy", "one-d"}[0]
+	switch tag {
+	case "x${:d}y":
+		want = "xdy"
+	case "${a}-${:d}":
+		want = "one-d"
+	}
+	prop := component_definition.NewProperty(nil, component_definition.PropertyTypeConfiguration, "value", tag)
+	p := vQuoteProc(cfg)
+	_, err := p.PostProcessProperties([]*component_definition.Property{prop}, nil, "c")
+	nd.Assert(err == nil, "C16: resolution of plain placeholders succeeds")
+	nd.Assert(prop.TagVal == want, "C16: a placeholder whose key is not configured is replaced by its default")
+	nd.Cover("placeholder with an empty key")
 }
